@@ -567,4 +567,87 @@ Section P.
     destruct (sim_step s a c st st' l [] I1 Ok1 S1) as [S2 _].
     rewrite P in S2. cbn in S2. inversion S2. reflexivity.
   Qed.
+
+  (* ---------- lag bound ---------- *)
+  Lemma backlog_len : forall s a (st : state), VInv st ->
+    length (c_backlog (absv C s a st)) = behind C st s.
+  Proof.
+    intros s a st I. unfold absv, behind. destruct (tasks C st s) as [sb|]; [|reflexivity].
+    destruct (s_pc C sb); cbn; try reflexivity; rewrite skipn_length, (v_len _ I); reflexivity.
+  Qed.
+
+  Lemma proj_short : forall s a (l : label), proj C s a l = [] \/ exists x, proj C s a l = [x].
+  Proof.
+    intros s a l. destruct l; cbn; eauto.
+    - destruct (N.eqb s0 s); eauto.
+    - destruct (N.eqb s0 s); eauto.
+    - destruct (N.eqb s0 s); eauto.
+    - destruct (N.eqb s0 s); eauto.
+    - destruct (N.eqb a0 a); eauto.
+  Qed.
+
+  Lemma always_sim : forall s a c ls suffix (st st' : state),
+    VInv st -> okfor s a c st (ls ++ suffix) -> run st ls = Some st' ->
+    never_behind C cv cap st s ls ->
+    always (Some cap) (cv c) (fun x => length (c_backlog x) <= cap) (absv C s a st) (projs C s a ls).
+  Proof.
+    intros s a c. induction ls as [|l t IH]; intros suffix st st' I Ok H Nb; cbn in H.
+    - cbn. split; [|exact Logic.I]. rewrite backlog_len by assumption. destruct Nb as [Nb _]. exact Nb.
+    - destruct (step st l) as [st1|] eqn:E; [|discriminate].
+      destruct Nb as [Nb0 Nb]. cbn in Nb. unfold V1.step in E. fold (step st l) in E.
+      change (V1.step C cv cap st l) with (step st l) in Nb. rewrite E in Nb.
+      destruct (sim_step s a c st st1 l (t ++ suffix) I Ok E) as [S1 Ok1].
+      pose proof (vinv_step _ _ _ I E) as I1.
+      specialize (IH suffix st1 st' I1 Ok1 H Nb).
+      unfold projs. cbn [flat_map]. destruct (proj_short s a l) as [P|[x P]]; rewrite P in *.
+      + cbn in S1. inversion S1 as [S1']. cbn [app]. rewrite S1'. exact IH.
+      + cbn [app]. cbn in S1. cbn [always]. split; [rewrite backlog_len by assumption; exact Nb0|].
+        destruct (cstep (Some cap) (cv c) (absv C s a st) x) as [c1|]; [|discriminate].
+        inversion S1; subst. exact IH.
+  Qed.
+
+  Lemma conv_of_app : forall s ls1 ls2 a c, conv_of C s ls1 = Some (a, c) -> conv_of C s (ls1 ++ ls2) = Some (a, c).
+  Proof.
+    intros s. induction ls1 as [|l t IH]; intros ls2 a c H; [discriminate|].
+    destruct l; cbn in *; auto. destruct (N.eqb s0 s); auto.
+  Qed.
+
+  Lemma okfor_init : forall s a c ls, conv_of C s ls = Some (a, c) -> okfor s a c (init C) ls.
+  Proof.
+    intros s a c ls Hc. unfold okfor. cbn. intros a' c' E'. rewrite Hc in E'. inversion E'; subst. split; reflexivity.
+  Qed.
+
+  Theorem v1_lag_bound : forall ls st s a c, run (init C) ls = Some st ->
+    conv_of C s ls = Some (a, c) -> never_behind C cv cap (init C) s ls ->
+    let x := absv C s a st in
+    prefix (c_got x) (filter_map (cv c) (pubs_after C s ls))
+    /\ (active x = true -> c_alive x = true ->
+        c_got x ++ c_mbox x ++ filter_map (cv c) (held x ++ c_backlog x)
+        = filter_map (cv c) (pubs_after C s ls)).
+  Proof.
+    intros ls st s a c H Hc Nb x. subst x. rewrite <- (apubs_projs s a ls).
+    apply (sub1_nolag_prefix (Some cap) (cv c) cap); [reflexivity|eapply v1_refines; eassumption|].
+    rewrite <- (absv_init s a).
+    apply (always_sim s a c ls [] (init C) st vinv_init); [|assumption|assumption].
+    rewrite app_nil_r. apply okfor_init. assumption.
+  Qed.
+
+  Theorem v1_after_lag : forall ls1 ls2 st1 st2 s a c,
+    run (init C) ls1 = Some st1 -> run st1 ls2 = Some st2 ->
+    conv_of C s ls1 = Some (a, c) -> never_behind C cv cap st1 s ls2 ->
+    let x1 := absv C s a st1 in let x2 := absv C s a st2 in
+    active x1 = true -> active x2 = true -> c_alive x2 = true ->
+    c_got x2 ++ c_mbox x2 ++ filter_map (cv c) (held x2 ++ c_backlog x2)
+    = c_got x1 ++ c_mbox x1 ++ filter_map (cv c) (held x1 ++ c_backlog x1 ++ pubs_on C ls2).
+  Proof.
+    intros ls1 ls2 st1 st2 s a c H1 H2 Hc Nb x1 x2 A1 A2 Al. subst x1 x2.
+    rewrite <- (apubs_on_projs s a ls2).
+    pose proof (okfor_init s a c (ls1 ++ ls2) (conv_of_app _ _ _ _ _ Hc)) as Ok.
+    destruct (sim_run_gen s a c ls1 ls2 _ _ vinv_init Ok H1) as (S1 & I1 & Ok1).
+    assert (Ok1' : okfor s a c st1 (ls2 ++ [])) by (rewrite app_nil_r; exact Ok1).
+    destruct (sim_run_gen s a c ls2 [] _ _ I1 Ok1' H2) as (S2 & I2 & _).
+    rewrite absv_init in S1.
+    eapply (sub1_after_lag (Some cap) (cv c) cap); try eassumption; [reflexivity|].
+    eapply always_sim; eassumption.
+  Qed.
 End P.
